@@ -84,6 +84,7 @@ def rangeOfWrap (L Iv now : Nat) : Nat × Nat :=
 
 /-- `getSatisfiedBuckets(now)` of a view with interval `Iv` over the array `a` -/
 def viewVals {M} (a : Arr M) (Iv now : Nat) : List (Slot M) :=
+  if now = 0 then [] else      -- `ValuesConditional`: time 0 is "no time", nothing is returned
   let r := rangeOf a.L Iv now
   a.slots.filter fun s => !deprecated (a.n * a.L) now s.start && decide (r.1 ≤ s.start ∧ s.start ≤ r.2)
 
